@@ -377,6 +377,16 @@ func RunG(id string, f func()) {
 	gid := goid()
 	s.gs.Store(gid, &G{ID: id, spawn: map[string]int{}})
 	defer s.gs.Delete(gid)
+	// the start of a goroutine is a scheduling point: a real scheduler may run the
+	// parent (and anybody else) for a long time before the child's first statement
+	site := id
+	if i := strings.LastIndex(site, ">"); i >= 0 {
+		site = site[i+1:]
+	}
+	if i := strings.LastIndex(site, "#"); i >= 0 {
+		site = site[:i]
+	}
+	s.park("go", site, true)
 	f()
 }
 
